@@ -69,7 +69,7 @@ func runPropertyCheck(e *Engine, prop, tier string, seed int, t0 time.Time) int 
 		cfg = &propConfig{level: "proof"}
 	}
 	thorough := tier == "thorough"
-	timeout := 20
+	timeout := 30
 	if thorough {
 		timeout = 120
 	}
